@@ -4,11 +4,11 @@ import BarterModel.Model.SysHandle
 /-!
 Line-protocol driver for the sub-check C20S (System handle + SystemBuilder wiring).
 
-  `sys <iter|stream|dflt> <on|off|dflt> <on|off|dflt> <k> <x2> <quote> <base>`
+  `sys <iter|stream|dflt> <on|off|dflt> <on|off|dflt> <k> <x2> <quote> <base> <latency ms>`
   `mkt i:p[:S:q] ...` | `mktre`
   `call open <req>..` | `call cancel <req>..` | `call close <filter>` | `call cancel_orders <filter>`
      | `call trading on|off`
-  `settle` | `take_audit` | `shutdown` | `abort` | `join`
+  `settle` | `sleep <ms>` | `take_audit` | `shutdown` | `abort` | `join`
 
 `model`: every op becomes a list of `SysHandle.Act`s, the state is always `SysHandle.run` of them.
 `spec`: what the documentation alone determines (history-only functions of the ops).
@@ -72,8 +72,32 @@ structure St where
   taken : Option (CEng × Nat)
   /-- the system value has been consumed -/
   gone : Bool
+  /-- virtual time (ms), latency of the mock exchange, and for every pending account event (same
+  order as `Sys.pending`) the virtual time at which it leaves the exchange -/
+  now : Nat
+  latency : Nat
+  dues : List Nat
 
-def St.init : St := ⟨none, cMkEngine 0 false false, 0, 0, 0, none, false⟩
+def St.init : St := ⟨none, cMkEngine 0 false false, 0, 0, 0, none, false, 0, 0, []⟩
+
+/-- "await until nothing moves any more" with a virtual clock: as `pickSettle`, but an account event
+is delivered only once it is due (responses and notifications of the mock exchange leave it `latency`
+ms after the request; the error answering a cancel request leaves at once). Every transition is a
+`SysHandle.step`. -/
+def settleLoop : Nat → CSys → List Nat → Nat → Nat → CSys × List Nat
+  | 0, s, d, _, _ => (s, d)
+  | fuel + 1, s, d, now, lat =>
+    if s.stopped.isSome then (s, d)
+    else if !s.feed.isEmpty then
+      let s' := step cEngine cExchange s .engine
+      let fresh := s'.pending.drop s.pending.length
+      let d' := d ++ fresh.map fun a => match a with | .cancelErr _ _ => now | _ => now + lat
+      settleLoop fuel s' d' now lat
+    else if !s.market.isEmpty then settleLoop fuel (step cEngine cExchange s .fwdMarket) d now lat
+    else
+      match d.findIdx? (· ≤ now) with
+      | some k => settleLoop fuel (step cEngine cExchange s (.fwdAccount k)) (d.eraseIdx k) now lat
+      | none => (s, d)
 
 def fuel : Nat := 100000
 
@@ -162,9 +186,9 @@ def model : Drv St where
   init := St.init
   step st toks :=
     match toks with
-    | ["sys", feed, audit, trading, k, x2, quote, base] =>
-      match parseMode? feed, parseOnOff? audit, parseOnOff? trading, k.toNat?, parseRat? quote, parseRat? base with
-      | some feed, some audit, some trading, some k, some quote, some base =>
+    | ["sys", feed, audit, trading, k, x2, quote, base, lat] =>
+      match parseMode? feed, parseOnOff? audit, parseOnOff? trading, k.toNat?, parseRat? quote, parseRat? base, lat.toNat? with
+      | some feed, some audit, some trading, some k, some quote, some base, some lat =>
         if x2 != "0" && x2 != "1" then (st, ["bad-op"]) else
         let x2 := x2 == "1"
         let b0 := SystemBuilder.new
@@ -175,19 +199,20 @@ def model : Drv St where
         let build := b3.build (cMkEngine k x2)
         let exch : CExch := ⟨k, quote, List.replicate k base⟩
         let s : CSys := build.init exch [.snapshot quote (List.replicate k base)]
-        ({ sys := some s, e0 := build.engine, k := k, printed := 0, mktCount := 0, taken := none, gone := false },
+        ({ sys := some s, e0 := build.engine, k := k, printed := 0, mktCount := 0, taken := none, gone := false,
+           now := 0, latency := lat, dues := [0] },
          [ "built feed=" ++ (if build.engineFeedMode == .iterator then "iter" else "stream") ++
              " audit=" ++ (if build.auditMode == .enabled then "on" else "off") ++
              " trading=" ++ (if build.engine.eng.enabled then "on" else "off") ++ " seq=0",
            "audit_present " ++ fmtBool s.auditHeld ])
-      | _, _, _, _, _, _ => (st, ["bad-op"])
+      | _, _, _, _, _, _, _ => (st, ["bad-op"])
     | _ =>
       match st.sys with
       | none => (st, ["bad-op"])
       | some s =>
       if st.gone then
         match toks with
-        | "mkt" :: _ | ["mktre"] | "call" :: _ | ["settle"] | ["take_audit"] | ["shutdown"] | ["abort"] | ["join"] =>
+        | "mkt" :: _ | ["mktre"] | "call" :: _ | ["settle"] | ["sleep", _] | ["take_audit"] | ["shutdown"] | ["abort"] | ["join"] =>
           (st, ["nosys"])
         | _ => (st, ["bad-op"])
       else
@@ -208,10 +233,17 @@ def model : Drv St where
           let s' := run cEngine cExchange s [Act.call c]
           ({ st with sys := some s' }, [if s'.panics > s.panics then "panic" else "sent"])
       | ["settle"] =>
-        let acts := schedActs cEngine cExchange pickSettle fuel s
-        let s' := run cEngine cExchange s acts
+        let (s', d') := settleLoop fuel s st.dues st.now st.latency
         let (st', ev) := newEvents st s'
-        ({ st' with sys := some s' }, ev ++ ["alive " ++ fmtBool s'.stopped.isNone])
+        ({ st' with sys := some s', dues := d' }, ev ++ ["alive " ++ fmtBool s'.stopped.isNone])
+      | ["sleep", ms] =>
+        match ms.toNat? with
+        | none => (st, ["bad-op"])
+        | some ms =>
+          let now := st.now + ms
+          let (s', d') := settleLoop fuel s st.dues now st.latency
+          let (st', ev) := newEvents st s'
+          ({ st' with sys := some s', dues := d', now := now }, ev ++ ["alive " ++ fmtBool s'.stopped.isNone])
       | ["take_audit"] =>
         let got := takeAuditResult s
         let s' := run cEngine cExchange s [Act.takeAudit]
@@ -269,7 +301,7 @@ def spec : Drv SpecSt where
   init := SpecSt.init
   step s toks :=
     match toks with
-    | ["sys", feed, audit, trading, k, _, _, _] =>
+    | ["sys", feed, audit, trading, k, _, _, _, _] =>
       match parseMode? feed, parseOnOff? audit, parseOnOff? trading, k.toNat? with
       | some feed, some audit, some trading, some k =>
         -- documented defaults: Iterator, audit Disabled, trading Disabled
@@ -299,7 +331,7 @@ def spec : Drv SpecSt where
           let ev : CEv := c.event
           ({ s with handle := s.handle ++ [ev], newH := s.newH ++ [tagOf s.k ev],
                     fatalPending := callIsFatal c }, ["sent"])
-      | ["settle"] =>
+      | ["settle"] | ["sleep", _] =>
         if s.dead then (s, []) else
         let lines := [ "h " ++ joinOr s.newH ] ++ (if s.fatalPending then [] else [ "m " ++ joinOr s.newM ])
         ({ s with newH := [], newM := [], dead := s.fatalPending, fatalPending := false }, lines)
